@@ -1,0 +1,8 @@
+//go:build !verif
+
+// Copyright 2025 NVIDIA CORPORATION
+// SPDX-License-Identifier: Apache-2.0
+
+package framework
+
+func verifStmt(_ *Session, _ *Statement, _ string, _ int) {}
